@@ -9,10 +9,16 @@ def tails(ctx, other):
             b'\xff' * 3, b'\x30\x80']
 
 
+def base_kind(T):
+    while T[0] in ('imp', 'exp'):
+        T = T[2]
+    return T[0]
+
+
 def run(ctx):
     ctx.rule = ('valid encodings e (BER definite/indefinite/chunked, CER, DER; incl. encodings ending in end-of-octets) followed by tails '
                 '{empty, zeros, another encoding, garbage}: one-shot decode returns (value, tail); streams of n back-to-back encodings: one '
-                'object per encoding, position after each = end of that encoding; non-trivial = non-empty tail or n > 1')
+                'object per encoding, position after each = end of that encoding; runs of 400 encodings of every base kind and of CHOICEs through one decoder, on a stream and as SEQUENCE OF elements before a tail; non-trivial = non-empty tail or n > 1')
     search_only = getattr(ctx, 'search_only', False)
     cases = codec.gen_cases(ctx, ctx.n(100, 2000), depth=3)
     # systematic: every base kind (every string and time type, every container kind) under every tagging shape of depth
@@ -85,6 +91,49 @@ def run(ctx):
                         n, 'seekable' if seekable else 'non-seekable', len(objs2), out2),
                         {'codec': cdc, 'T': c.T, 'v': c.v, 'encoding': e[1].hex(), 'n': n, 'seekable': seekable, 'sizes': sizes[:200], 'polls': sorted(polls)},
                         finding=fid)
+    # long runs through ONE decoder: 400 encodings of every base kind and of CHOICEs (untagged / tagged, primitive and
+    # constructed alternatives) back to back on a stream, and as the 400 elements of a SEQUENCE OF followed by a tail -
+    # nothing a decoder keeps from one object to the next may run out or drift
+    runs = [c for c in codec.tag_grid_cases(ctx) if c.T[0] not in ('imp', 'exp')]
+    for T_, v_ in ((('choice', [('seqof', ('int',)), ('octs',)]), ('ch', 0, ('list', [('i', 1)]))),
+                   (('choice', [('seq', [('req', ('null',))]), ('int',)]), ('ch', 0, ('rec', [('null',)]))),
+                   (('exp', (128, 0, 1), ('choice', [('set', [('req', ('bool',))]), ('int',)])), ('ch', 0, ('rec', [('b', True)]))),
+                   (('choice', [('choice', [('setof', ('int',)), ('null',)]), ('oid',)]), ('ch', 0, ('ch', 0, ('list', [('i', 2)]))))):
+        runs.append(codec.Case(T_, v_))
+    N = 400
+    for j, c in enumerate(runs):
+        if ctx.tier == 'quick' and c.T[0] != 'choice' and base_kind(c.T) != 'choice' and (j + ctx.seed) % 4:
+            continue
+        for cdc, kw in (('BER', dict(defMode=False)), ('CER', {}), ('DER', {})):
+            if codec.f01_applies(c.T, c.v, cdc != 'DER'):
+                continue
+            e = I.run_encode(cdc, c.obj, **kw)
+            if e[0] != 'ok' or not e[1]:
+                continue
+            s = streams.Growing(); s.arrive(e[1] * N); s.close_input()
+            ev, out = streams.drive(I.DEC[cdc], s, [], spec=c.spec)
+            pos = [x[2] for x in ev if not isinstance(x, str)]
+            ctx.case(('long-run-stream', cdc, c.cty, c.cval), True)
+            ctx.stats['long runs of %d objects' % N] += 1
+            m = {'codec': cdc, 'T': c.T, 'v': c.v, 'encoding': e[1].hex(), 'n': N}
+            if out != 'stop' or pos != [len(e[1]) * (i + 1) for i in range(N)]:
+                ctx.prop_fail('stream of %d encodings through one decoder: %d objects, outcome %r' % (N, len(pos), out), m)
+                continue
+            Tl, vl = ('seqof', c.T), ('list', [c.v] * N)
+            try:
+                cl = codec.Case(Tl, vl)
+            except Exception:
+                continue
+            el = I.run_encode(cdc, cl.obj, **kw)
+            if el[0] != 'ok':
+                continue
+            tail = b'\x05\x00'
+            d = I.run_decode(cdc, el[1] + tail, asn1Spec=cl.spec)
+            ctx.case(('long-run-seqof', cdc, c.cty, c.cval), True)
+            if d[0] != 'ok':
+                ctx.prop_fail('SEQUENCE OF %d elements followed by a tail: decoding raised %s' % (N, d[1]), dict(m, container=True))
+            elif d[2] != tail or len(d[1]) != N:
+                ctx.prop_fail('SEQUENCE OF %d elements followed by a tail: %d elements, %d octets left' % (N, len(d[1]), len(d[2])), dict(m, container=True))
     # long back-to-back streams from a non-seekable source (beyond the caching wrapper's buffer)
     import io
     from pyasn1.type import univ
